@@ -402,6 +402,24 @@ def F39(fil):
     return bool(bad), "; ".join(bad) or "sub-band requests give as many rows as the header declares, labelled with the channel centres"
 
 
+def F40(fil):
+    blk = fil.read_block(0, 128).dedisperse(5.0)
+    ds = blk.downsample(tfactor=2)
+    name = blk.to_file("f40.fil")
+    back = FilReader(name)
+    got = (ds.dm, blk.normalise().dm, back.header.dm)
+    return got != (5.0, 5.0, 5.0), f"block dedispersed at DM 5: downsample().dm, normalise().dm, refdm of to_file() = {got}"
+
+
+def F41(fil):
+    blk = fil.read_block(0, 128)
+    d = fil.header.get_dmdelays(1.0, ref_freq="min")
+    lead = max(0, -int(d.min()))
+    out = blk.dedisperse(1.0, only_valid_samples=True, ref_freq="min")
+    off = (out.header.tstart - fil.header.tstart) * 86400 / fil.header.tsamp
+    return abs(off - lead) > 1e-3, f"valid-samples dedispersion with ref_freq='min' drops the first {lead} samples; tstart advanced by {off:.3f} samples"
+
+
 ALL = {k: v for k, v in globals().items() if k.startswith("F") and k[1:].isdigit()}
 
 
